@@ -11,7 +11,7 @@ from . import explore
 
 
 def is_sym(x):
-    return isinstance(x, (Q, Angle))
+    return isinstance(x, (Q, Angle)) or type(x).__name__ in ('Turn', 'Phase', 'ZNum', 'SqrtSym', 'T')
 
 
 def _has_sym(a):
@@ -67,7 +67,7 @@ def _map(fn, x):
 
 
 def _cos1(x):
-    if isinstance(x, Angle):
+    if isinstance(x, Angle) or type(x).__name__ == 'Phase':
         return x.cos()
     if isinstance(x, Q):
         a = _q_as_angle(x)
@@ -76,7 +76,7 @@ def _cos1(x):
 
 
 def _sin1(x):
-    if isinstance(x, Angle):
+    if isinstance(x, Angle) or type(x).__name__ == 'Phase':
         return x.sin()
     if isinstance(x, Q):
         a = _q_as_angle(x)
@@ -251,8 +251,16 @@ class SymNP:
         return _map(_abs1, x)
     absolute = abs
 
+    exp_pool = None
+
     def exp(self, x):
-        return _map(lambda a: a.exp() if hasattr(a, 'exp') and not isinstance(a, (float, int, np.number)) else np.exp(a), x)
+        def one(a):
+            if isinstance(a, Q) and self.exp_pool is not None:
+                return self.exp_pool.exp(a)
+            if hasattr(a, 'exp') and not isinstance(a, (float, int, np.number)):
+                return a.exp()
+            return np.exp(a)
+        return _map(one, x)
 
     def arccos(self, x):
         return _map(lambda a: ang.arccos(a) if isinstance(a, (Q, int, Fraction)) or _ctx_symbolic() else np.arccos(a), x)
